@@ -218,6 +218,8 @@ def all_exec_lines(ctx, podman="/usr/bin/podman", volume=None):
     cases, meta = [], []
     for i in range(volume or ctx.volume(300, 4000)):
         gargs = [word() for _ in range(rng.randint(0, 2))]
+        if rng.random() < 0.2:
+            gargs = rng.choice([["--root", ""], ["", "--x"], ["--a", "", "--b"], [""]])       # an EMPTY argument among plain ones (nothing else in the command needs quoting)
         gline = ("GlobalArgs=%s\n" % " ".join(dq(g) for g in gargs)) if gargs else ""
         kind = rng.choice(["kube", "container", "pod"])
         if kind == "kube":
